@@ -20,10 +20,13 @@ fn state(split: bool) -> M {
     state_l(split, LMAX)
 }
 fn state_l(split: bool, lmax: usize) -> M {
+    state_ll(split, 0, lmax)
+}
+fn state_ll(split: bool, lmin: usize, lmax: usize) -> M {
     let main: HB<(u8, u8)> = HB::verif_counters(pow2(), kani::any(), kani::any(), kani::any());
     let old = if split {
         let l: usize = kani::any();
-        kani::assume(l <= lmax);
+        kani::assume(l >= lmin && l <= lmax);
         let ot: HB<(u8, u8)> = HB::verif_counters(pow2(), l, kani::any(), kani::any());
         // I4: headroom
         kani::assume(main.verif_growth_left() >= l + (l + R - 1) / R);
@@ -112,10 +115,18 @@ fn cnt_insert(mut m: M) {
 fn cnt_insert__unsplit() {
     cnt_insert(state(false))
 }
+/// a resize is pending (L >= 1): by I4 the call cannot have to grow
 #[kani::proof]
 #[kani::unwind(12)]
 fn cnt_insert__split() {
-    cnt_insert(state(true))
+    cnt_insert(state_ll(true, 1, LMAX))
+}
+/// the old table is installed but empty (emptied by retain / replace_entry_with): the call
+/// may find the main table full and start the next resize
+#[kani::proof]
+#[kani::unwind(12)]
+fn cnt_insert__split_empty() {
+    cnt_insert(state_ll(true, 0, 0))
 }
 #[kani::proof]
 #[kani::unwind(12)]
